@@ -70,6 +70,7 @@ func NewWorld(ex *Exec) *World {
 		ergoPath + ".ParsePlanInput": w.mParsePlanInput,
 		ergoPath + ".zzStdinText":  func(ex *Exec, c *callCtx) Value { w.stdinText = c.args[0]; return nil },
 		ergoPath + ".zzLastJSON":   w.mLastJSON,
+		ergoPath + ".zzOutStr":     w.mOutStr,
 		ergoPath + ".zzStdinPiped": func(ex *Exec, c *callCtx) Value { w.stdinPiped = c.args[0]; return nil },
 		"syscall.Open":            w.mSysOpen,
 		"syscall.Flock":           w.mFlock,
@@ -544,4 +545,66 @@ func (w *World) mParsePlanInput(ex *Exec, c *callCtx) Value {
 	verr := ex.havoc("world.stdin.verr", vt, havocSpec{def: 0, by: map[string]int{}, constKeys: map[string]bool{}}, "")
 	perr := Or(w.stdinParseErr, Not(w.mStdinPiped(ex, c).(BoolV).T))
 	return TupleV{E: []Value{MergeV(perr, NilRef(), w.stdinPlan), MergeV(perr, verr, NilRef())}}
+}
+
+// zzOutStr(field): the string field `field` (JSON key) of the JSON value written to stdout,
+// merged over the paths that write one ("" when absent).
+func (w *World) mOutStr(ex *Exec, c *callCtx) Value {
+	key, _ := litOf(c.args[0])
+	var acc Value = StrLit("")
+	for _, o := range outputs {
+		if o.Kind != "json" || o.Stream != "stdout" || o.Val == nil {
+			continue
+		}
+		r, ok := o.Val.(RefV)
+		if !ok {
+			continue
+		}
+		for _, a := range r.Alts {
+			it, ok := a.Tgt.(IfaceT)
+			if !ok {
+				continue
+			}
+			var fv Value
+			switch v := it.V.(type) {
+			case StructV:
+				st := it.Typ.Underlying().(*types.Struct)
+				for i := 0; i < st.NumFields(); i++ {
+					if k, ok := jsonKey(st.Field(i), st.Tag(i)); ok && k == key {
+						if sv, ok := v.F[i].(StrV); ok {
+							fv = sv
+						}
+					}
+				}
+			case RefV:
+				// map[string]interface{} / map[string]string literal
+				for _, ma := range v.Alts {
+					mt, ok := ma.Tgt.(MapT)
+					if !ok {
+						continue
+					}
+					for _, e := range mt.M.resolve().entries {
+						if ks, ok := litOf(e.Key); ok && ks == key {
+							switch ev := e.Val.(type) {
+							case StrV:
+								fv = ev
+							case RefV:
+								for _, ia := range ev.Alts {
+									if iv, ok := ia.Tgt.(IfaceT); ok {
+										if sv, ok := iv.V.(StrV); ok {
+											fv = sv
+										}
+									}
+								}
+							}
+						}
+					}
+				}
+			}
+			if fv != nil {
+				acc = MergeV(And(o.G, a.C), fv, acc)
+			}
+		}
+	}
+	return acc
 }
